@@ -282,6 +282,22 @@ pub fn record_table(on: bool) {
     RECORD_TABLE.store(on, Ordering::SeqCst);
 }
 
+static TABLE_INSERTS: AtomicU64 = AtomicU64::new(0);
+
+/// Called by every `insert` of every table while recording: lets the harness tell whether the recorded insert events
+/// are all the inserts there were.
+#[inline]
+pub fn count_table_insert() {
+    if RECORD_TABLE.load(Ordering::Relaxed) {
+        TABLE_INSERTS.fetch_add(1, Ordering::Relaxed);
+    }
+}
+
+/// Number of `insert` calls counted since the last call of this function.
+pub fn take_table_inserts() -> u64 {
+    TABLE_INSERTS.swap(0, Ordering::SeqCst)
+}
+
 pub fn take_table() -> Vec<TableEvent> {
     std::mem::take(&mut *TABLE_EVENTS.lock().unwrap())
 }
